@@ -44,6 +44,9 @@ def adversarial():
         prop("x0fkept", [own("X0Base")], ["xsd:boolean", own("X0Left")], functional=True, without=[own("X0Right")]),   # functional and withheld
         prop("x0title", [own("X0Base"), own("X0Trip")], ["xsd:string", "rdf:langString"]),
         prop("x0motto", [own("X0Trip")], ["rdf:langString", "xsd:string"], functional=True),
+        # natural-language maps together with types in the range: the language-map accessors are there all the same
+        prop("x0caption", [own("X0Base"), as_ref("Note")], ["xsd:string", "rdf:langString", as_ref("Object"), own("X0Left")]),
+        prop("x0label", [own("X0Right")], [own("X0Base"), "rdf:langString", "xsd:string"], functional=True),
     ]
     ctx = gen(1)[0]["@context"]
     return {"@context": ctx, "id": ns, "type": "owl:Ontology", "name": "Ext0", "members": members}, ["X0Base", "X0Left", "X0Right", "X0Bottom", "X0Deep", "X0Mixed", "X0Deeper", "X0Trip", "X0Ask"], ns
